@@ -7,7 +7,11 @@ REGISTRY = {
     'C01': ('verif.p_mc', 'run_c01'),
     'C02': ('verif.p_mc', 'run_c02'),
     'C03': ('verif.p_mc', 'run_c03'),
+    'C04': ('verif.p_mc', 'run_c04'),
+    'C06': ('verif.p_mc', 'run_c06'),
+    'C07': ('verif.p_mc', 'run_c07'),
     'C12': ('verif.p_graph', 'run_c12'),
+    'C19': ('verif.p_mc', 'run_c19'),
     'C14': ('verif.p_kripke', 'run_c14'),
     'C15': ('verif.p_mc', 'run_c15'),
     'C13': ('verif.p_graph', 'run_c13'),
